@@ -97,7 +97,7 @@ def _cases(draw, tier):
     why = draw(st.sampled_from(['twice-direct', 'twice-nested', 'diamond', 'missing', 'ambiguous', 'self',
                                  'ambiguous-copy-next-to-includer', 'ambiguous-copy-next-to-nested-includer',
                                  'includer-file-label-used-in-included', 'included-file-label-used-in-includer',
-                                 'includer-file-label-used-in-nested']))
+                                 'includer-file-label-used-in-nested', 'inert-twice', 'inert-missing']))
     byte = {'t': 'data', 'd': '.byte', 'vals': [['num', 7, 'dec']]}
     common = {'t': 'include', 'file': 'common.asm', 'items': [dict(byte)], 'path': 'inc_a/common.asm'}
     if why == 'twice-direct':
@@ -108,6 +108,12 @@ def _cases(draw, tier):
     elif why == 'diamond':
         items = [{'t': 'include', 'file': 'left.asm', 'path': 'inc_a/left.asm', 'items': [copy.deepcopy(common)]},
                  {'t': 'include', 'file': 'right.asm', 'path': 'inc_b/right.asm', 'items': [dict(byte), copy.deepcopy(common)]}]
+    elif why == 'inert-twice':
+        # the second inclusion sits in a branch that is not compiled: nothing is included there, the program is fine
+        items = [dict(byte), copy.deepcopy(common), {'t': 'if', 'lhs': ['num', 0, 'dec']}, copy.deepcopy(common), {'t': 'endif'}, dict(byte)]
+    elif why == 'inert-missing':
+        items = [dict(byte), {'t': 'ifdef', 'name': 'NEVER_DEFINED_SYM'},
+                 {'t': 'include', 'file': 'nowhere.asm', 'items': [], 'path': 'nowhere.asm', 'absent': True}, {'t': 'endif'}, dict(byte)]
     elif why == 'self':
         items = [dict(byte), {'t': 'include', 'file': 'main.asm', 'items': [], 'path': 'main.asm'}]
     elif why == 'includer-file-label-used-in-included':
@@ -283,7 +289,11 @@ def execute(case, ctx):
         res = runner.run_forked(argv, files)
         detail = {'sources': {k: v for k, v in files.items() if k.endswith('.asm')}, 'argv': argv, 'why': why, 'run': res.brief()}
         findings = []
-        if res.klass == 'accepted':
+        if why.startswith('inert-'):
+            # not a reject scenario: the pasted text assembles, so must this
+            if res.klass != 'accepted':
+                findings.append(Finding('C17/include-in-a-branch-that-is-not-compiled-takes-effect/' + why, detail))
+        elif res.klass == 'accepted':
             findings.append(Finding('C17/reject/' + why + '-accepted', detail))
         elif res.klass == 'timeout':
             findings.append(Finding('C17/timeout', detail))
